@@ -9,17 +9,18 @@ Ev == Trace[l]
 IsEv(e) == l <= Len(Trace) /\ Ev.ev = e /\ l' = l + 1 /\ UNCHANGED rej
 
 Init == /\ l = 1 /\ rej = <<>> /\ file = <<>> /\ fileEnd = 0 /\ pos = 0 /\ blocked = FALSE /\ perr = "nil"
-        /\ faultable = FALSE /\ cutLen = -1 /\ open = FALSE
+        /\ faultable = FALSE /\ cutLen = -1 /\ layoutOK = TRUE /\ open = FALSE
 
 \* header: the file layout and the fault setting; "new" tells whether NewReader succeeded
 Reset == /\ IsEv("T")
          /\ file' = Ev.file /\ fileEnd' = Ev.fileEnd /\ pos' = 0 /\ blocked' = FALSE /\ perr' = "nil"
          /\ faultable' = Ev.faultable /\ cutLen' = Ev.cutLen /\ open' = FALSE
+         /\ layoutOK' = (IF "altered" \in DOMAIN Ev THEN ~Ev.altered ELSE TRUE)
 TNew == /\ IsEv("new") /\ ~open
         /\ IF Ev.err = "nil" THEN open' = TRUE
            ELSE /\ (faultable \/ N = 0) /\ open' = FALSE
                 /\ (Ev.err = "EOF" => N = 0 \/ cutLen = 0)
-        /\ UNCHANGED <<file, fileEnd, pos, blocked, perr, faultable, cutLen>>
+        /\ UNCHANGED <<file, fileEnd, pos, blocked, perr, faultable, cutLen, layoutOK>>
 \* C03: where the harness ran the same history on an uncached reader, the reply must be identical
 Same == "same" \in DOMAIN Ev => Ev.same
 \* C10: HasEOF reports false for every proper prefix of a stream
